@@ -181,12 +181,16 @@ class Raised:
 class ConcreteGen:
     """Leaves come from a model (dict name -> value); missing leaves get defaults or random values."""
 
-    def __init__(self, values=None, rng=None):
+    def __init__(self, values=None, rng=None, moderate=False):
         self.values = dict(values or {})
         self.rng = rng
         self.used = {}
+        self.moderate = moderate      # well-conditioned random values (small rationals): for the bounded search, whose run-time
+                                      # oracle compares floats and must not mistake round-off for a violation
 
     def _get(self, name, kind, default):
+        if name in self.used:
+            return self.used[name]          # one leaf, one value: contracts may mention a leaf twice (e.g. an untouched copy to compare with)
         if name in self.values:
             v = self.values[name]
         elif self.rng is not None:
@@ -203,7 +207,17 @@ class ConcreteGen:
             r = self.rng
             choice = r.random()
             hist = self.__dict__.setdefault('_history', [])
-            if hist and r.random() < 0.15:
+            if self.moderate:
+                c2 = r.random()
+                if hist and c2 < 0.15:
+                    v = r.choice(hist)
+                elif c2 < 0.25:
+                    v = 0.0
+                elif c2 < 0.5:
+                    v = float(r.randint(-4, 4))
+                else:
+                    v = r.randint(-40, 40) / r.choice([1, 2, 4, 5, 10])
+            elif hist and r.random() < 0.15:
                 v = r.choice(hist)           # coincidences (equal element values) are rare by chance but matter
             elif choice < 0.12:
                 v = 0.0
